@@ -34,7 +34,10 @@ HASH_INSENSITIVE = True
 RULE = ('one case = per-slot (prior file, listed, manifest, placement) x '
         'check_existing, one real _synchronize; non-trivial = the sync wrote '
         'at least one cache file (cases_with_write); fault runs = one '
-        'injected failure or kill at one FS step + recovery sync')
+        'injected failure or kill at one FS step + recovery sync; two-sync '
+        'slice (T): after the first sync ZooKeeper and the placement list '
+        'move on per slot (listed, manifest, placement node) and the SAME '
+        'agent synchronises again')
 
 ASSUMPTIONS = [
     'interpretation: "mirrors" together with the quantifier\'s "outdated '
@@ -81,8 +84,16 @@ def _plan(tier):
     """[(mode, nslots)]: B = fault-free sweep, F = sweep + every fault,
     S = start-up slice (real EventMgr.run issues the first sync)."""
     if tier == 'quick':
-        return [('S', 1), ('S', 2), ('F', 1), ('F', 2)]
-    return [('S', 1), ('S', 2), ('F', 1), ('F', 2), ('B', 3)]
+        return [('S', 1), ('S', 2), ('F', 1), ('F', 2), ('T', 1), ('T', 2)]
+    return [('S', 1), ('S', 2), ('F', 1), ('F', 2), ('B', 3),
+            ('T', 1), ('T', 2)]
+
+
+# second-sync slice (mode T): what slot 1 does next to a fully varied slot 0:
+# stays placed and cached / leaves / arrives
+_SECOND = [(e, m, c) for e in (0, 1) for m in (0, 1, 2) for c in (0, 1, 2)]
+_T_OTHER = [(('A', 1, 1, 2), (1, 1, 2)), (('C', 1, 1, 2), (0, 1, 2)),
+            (('A', 0, 0, 0), (1, 1, 2))]
 
 
 def _startable(cfg):
@@ -93,7 +104,9 @@ def _startable(cfg):
 def _chunks(tier):
     out = []
     for mode, n in _plan(tier):
-        if n == 1:
+        if mode == 'T':
+            out.extend((mode, n, (i,)) for i in range(len(_MENU)))
+        elif n == 1:
             out.append((mode, n, ()))
         elif n == 2:
             out.extend((mode, n, (i,)) for i in range(len(_MENU))
@@ -131,6 +144,30 @@ def _worker(chunk):
             viols[key]['count'] += 1
 
     try:
+        if mode == 'T':
+            first = _MENU[prefix[0]]
+            others = [None] if n == 1 else _T_OTHER
+            for other in others:
+                for second in _SECOND:
+                    for check in (False, True):
+                        slots = [list(first)]
+                        slots2 = [list(second)]
+                        if other is not None:
+                            slots.append(list(other[0]))
+                            slots2.append(list(other[1]))
+                        case = {'slots': slots, 'slots2': slots2,
+                                'check': check}
+                        vs, info = w.run_case(world, case)
+                        cases += 1
+                        cnt['two_sync_cases_%d_slots' % n] += 1
+                        cnt['fs_steps'] += info.get('steps', 0)
+                        if info.get('written'):
+                            nontrivial += 1
+                        note(vs, case, None)
+            cnt.update(world.stats)
+            return {'cases': cases, 'nontrivial': nontrivial,
+                    'states': cases, 'violations': list(viols.values()),
+                    'samples': samples, 'counters': dict(cnt)}
         for last in (_MENU1 if n == 1 else _MENU):
             slots = [_MENU[i] for i in prefix] + [last]
             if mode == 'S':
@@ -216,7 +253,8 @@ def _run(ctx):
     if not (res.nontrivial and c.get('fault_kill') and c.get('fault_error')
             and c.get('written_files_checked') and c.get('virtual_stats')
             and c.get('fault_at_write') and c.get('resyncs')
-            and c.get('startup_syncs') and c.get('outdated_files_checked')):
+            and c.get('startup_syncs') and c.get('outdated_files_checked')
+            and c.get('second_sync_had_to_add_a_file')):
         raise w.HarnessError('vacuous run: %r' % dict(c))
     merged = {}
     for v in res.violation_list():
